@@ -195,8 +195,15 @@ class Agent(dbus.service.Object):
             self.stop()
             return True
 
-        for hdl in self._handlers:
-            hdl.terminate()
+        for hdl in tuple(self._handlers):
+            if hdl._in_term:
+                # already ending, on its own or on the peer's request
+                continue
+            if hdl._in_sess:
+                hdl.terminate()
+            else:
+                # no session to terminate yet
+                hdl.close()
         self._logger.info('Waiting on sessions to terminate')
         return False
 
